@@ -152,6 +152,7 @@ def explore(cond: Cond, timeout: float, seed: int = 0, classify=lambda f: None) 
             st["exhausted"] = True
             break
         if len(seen_sites) >= MAX_RECORDED:
+            st["stopped_after_failures"] = True
             break
     st["wall_s"] = round(time.time() - t0_wall, 3)
     st["cpu_s"] = round(process_time() - t0_cpu, 3)
@@ -163,6 +164,8 @@ def explore(cond: Cond, timeout: float, seed: int = 0, classify=lambda f: None) 
         st["verdict"] = "closed"  # every path of the bounded space was decided
     elif st["exhausted"]:
         st["verdict"] = "inconclusive:unknown_paths"
+    elif st.get("stopped_after_failures"):
+        st["verdict"] = "inconclusive:stopped_after_%d_distinct_failures" % len(seen_sites)
     elif st["paths"] >= cond.max_paths:
         st["verdict"] = "inconclusive:max_paths"
     else:
